@@ -34,6 +34,7 @@ class FsRun:
         self.exit_code = None
         self.cur_call = -1
         self.start_rel = 0
+        self.calls_open = 0     # sessions opened so far (by any process of this run)
         self.calls = {}
         self.top = os.path.join(root, "top")
         self.chdir = os.path.join(self.top, "ch")
@@ -172,7 +173,11 @@ class FsRun:
                 if self.npass % 3 == 0:
                     # every third pass asks for a range of far more than a thousand file periods around the recording
                     wide = 1500 * max(cc.bound[i + 1] - cc.bound[i] for i in range(len(cc.bound) - 1))
-                    lo, hi = max(0, lo - wide), hi + wide
+                    if (self.npass // 3) % 2 or cc.mode != "gapped" or self.calls_open != 1:
+                        lo, hi = max(0, lo - wide), hi + wide
+                    else:
+                        # ... starting at the first sample of the recording (inside its first file, not on a file time)
+                        lo, hi = self.start_rel + cc.B, hi + wide
                 r = rd.read(lo, hi, "ch")
                 blocks, ds, fs, bad = [], [], [], 0
                 for k, arr in sorted(r.items(), key=lambda kv: int(kv[0])):
@@ -264,6 +269,7 @@ class FsRun:
                         runs = []
                         if m["op"] == "open":
                             self.start_rel = m["args"][0] - cc.B
+                            self.calls_open += 1
                         elif m["op"] == "write":
                             runs = [[self.start_rel + m["args"][0], m["args"][1]]]
                         elif m["op"] == "blocks":
